@@ -149,3 +149,17 @@ package mbapp
 //@   requires a != nil && a.done != nil && (!a.once ==> !closed(a.done))
 //@   ensures [fits] !old(a.once) && a.err == nil ==> a.n == len(resp)
 //@   ensures [once] old(a.once) ==> a.n == old(a.n) && a.err == old(a.err) && a.errCode == old(a.errCode)
+
+// ---- Close closes both hubs, whatever the fragment layer and the inner swarm do -------------------
+
+//@ func (*fragLayer).Close
+//@   trusted
+//@   assumeframe
+//@   ensures true
+//@
+//@ func (*Swarm).Close
+//@   noframe
+//@   requires s != nil && inv(s)
+//@   ensures [hubsclosed] closed(old(s.tells.closed)) && closed(old(s.asks.closed))
+//@   fnspec Close:
+//@     preserves s.tells.closed, s.asks.closed, closed(s.tells.closed), closed(s.asks.closed)
